@@ -95,7 +95,19 @@ func (ctx *Context) Parse(value string) error {
 	p.errorFormatter = func(pos position, input []byte, expected []string) error {
 		return formatFriendlyErrorLang(lang, pos, input, expected)
 	}
-	_, err := p.parse(nil)
+	_, err := func() (val any, err error) {
+		// 解析算力超限时生成的解析器会直接panic，这里将其转为普通错误
+		defer func() {
+			if r := recover(); r != nil {
+				if r == errMaxExprCnt {
+					err = errors.New("解析算力上限: " + errMaxExprCnt.Error())
+					return
+				}
+				panic(r)
+			}
+		}()
+		return p.parse(nil)
+	}()
 	if err != nil {
 		ctx.Error = err
 		return err
